@@ -431,6 +431,13 @@ def apply_real(w, obj, op):
 
 
 def observe_real(w, obj, full):
+    try:
+        return _observe_real(w, obj, full)
+    except Exception as e:            # an accessor that never raises in the model raised
+        return {("size" if w.startswith("rc") else "len"): -1, "exception": repr(e)[:200]}
+
+
+def _observe_real(w, obj, full):
     if w == "pt":
         return pt_obs(obj, PT_PROBES, PT_NPOS, full)
     if w == "pl":
@@ -498,8 +505,16 @@ def group_histories(records):
 # ----------------------------------------------------------------------------- grid / combination
 
 def grid_observe(n, nc, tr, kind):
-    from scinumtools import DataPlotGrid
     data = list(range(100, 100 + n)) if kind == "list" else {f"k{j}": 100 + j for j in range(n)}
+    try:
+        return _grid_observe(data, n, nc, tr, kind)
+    except Exception as e:            # the real class raised: an observation, judged by the specification
+        return {"ev": "grid", "n": n, "nc": nc, "tr": tr, "kind": kind, "nrows": -1, "items": [], "missing": [], "figsize": [0, 0],
+                "axsize": [4, 2], "payload": [], "data": [], "raised": True, "exception": repr(e)[:200]}
+
+
+def _grid_observe(data, n, nc, tr, kind):
+    from scinumtools import DataPlotGrid
     g = DataPlotGrid(data, nc) if nc != 2 or kind == "dict" else DataPlotGrid(data)
     its = [plain(list(t)) for t in (g.items(transpose=True) if tr else g.items())]
     mis = [plain(list(t)) for t in g.items(missing=True, transpose=tr)]
@@ -510,14 +525,17 @@ def grid_observe(n, nc, tr, kind):
         payload = [[t[3], t[4]] for t in its]
         dat = [[k, v] for k, v in data.items()]
     return {"ev": "grid", "n": n, "nc": nc, "tr": tr, "kind": kind, "nrows": plain(g.nrows), "items": [t[:3] for t in its],
-            "missing": mis, "figsize": plain(list(g.figsize)), "axsize": [4, 2], "payload": payload, "data": dat}
+            "missing": mis, "figsize": plain(list(g.figsize)), "axsize": [4, 2], "payload": payload, "data": dat, "raised": False}
 
 
 def comb_observe(lists):
     from scinumtools import DataCombination
-    dc = DataCombination([list(l) for l in lists])
-    return {"ev": "comb", "lists": lists, "keys": [list(k) for k in dc.keys()], "values": [list(v) for v in dc.values()],
-            "items": [[list(k), list(v)] for k, v in dc.items()]}
+    try:
+        dc = DataCombination([list(l) for l in lists])
+        return {"ev": "comb", "lists": lists, "keys": [list(k) for k in dc.keys()], "values": [list(v) for v in dc.values()],
+                "items": [[list(k), list(v)] for k, v in dc.items()], "raised": False}
+    except Exception as e:
+        return {"ev": "comb", "lists": lists, "keys": [], "values": [], "items": [], "raised": True, "exception": repr(e)[:200]}
 
 
 def replay_static(rec):
@@ -538,26 +556,40 @@ def replay_static(rec):
 
 # ----------------------------------------------------------------------------- recording traces on the real objects
 
+def safe_obs(field, fn, *a):
+    try:
+        return fn(*a)
+    except Exception as e:
+        return {field: -1, "exception": repr(e)[:200]}
+
+
 def record(plan):
     """plan = {"obj":..., constructor args, "ops": [...]} -> list of events (a trace)"""
     o = plan["obj"]
     if o == "pt":
         obj = pt_new(plan["settings"], plan["keyname"], plan["init"])
-        obs = lambda full=True: pt_obs(obj, plan["probes"], plan["npos"], full)
+        obs = lambda full=True: safe_obs("len", pt_obs, obj, plan["probes"], plan["npos"], full)
         priv, app = (lambda: pt_priv(obj)), (lambda op: pt_apply(obj, op))
     elif o == "pl":
         obj = pl_new(plan["settings"])
-        obs = lambda full=True: pl_obs(obj, plan["npos"], full)
+        obs = lambda full=True: safe_obs("len", pl_obs, obj, plan["npos"], full)
         priv, app = (lambda: pl_priv(obj)), (lambda op: pl_apply(obj, op))
     elif o == "rc":
         obj = rc_new(plan["mode"], plan["cols"], plan["kindof"], plan["rows"])
-        obs = lambda full=True: rc_obs(obj, plan["kindof"], full)
+        obs = lambda full=True: safe_obs("size", rc_obs, obj, plan["kindof"], full)
         priv, app = (lambda: rc_priv(obj)), (lambda op: rc_apply(obj, op))
     elif o == "grid":
         return [grid_observe(plan["n"], plan["nc"], plan["tr"], plan["kind"])]
     elif o == "comb":
         return [comb_observe(plan["lists"])]
     first = {k: v for k, v in plan.items() if k != "ops"}
+    priv0 = priv
+
+    def priv():                       # the private attributes may be renamed by a refactoring: then the machine level is not checked (drift)
+        try:
+            return priv0()
+        except Exception as e:
+            return {"unavailable": repr(e)[:200]}
     first.update(ev="new", err=False, obs=obs(), priv=priv())
     evs = [first]
     n = len(plan["ops"])
@@ -806,6 +838,10 @@ def run(replay=None):
     gmax, cmax = (60, 12) if thorough else (30, 8)
     plans += [{"obj": "grid", "n": n, "nc": nc, "tr": tr, "kind": kind} for n in range(gmax + 1) for nc in range(1, cmax + 1)
               for tr in (False, True) for kind in (("list", "dict") if n <= 12 else ("list",))]
+    # every list of <= 3 lists of <= 3 items over {1, 2} (the universe TLC enumerates), judged by the ideal as well
+    import itertools
+    small = [list(t) for n in range(4) for t in itertools.product([1, 2], repeat=n)]
+    plans += [{"obj": "comb", "lists": [list(x) for x in ls]} for k in range(4) for ls in itertools.product(small, repeat=k)]
     traces = C.pmap(record, plans)
     nreal = len(traces)
     dbg("recorded", nreal, "traces", sum(len(x) for x in traces), "events", round(time.time() - t0, 1))
